@@ -345,11 +345,40 @@ def r18_7(ctx):
     ctx.ok("trap-detached-unarmed", where, "detached test cases run with {persist_state}=0 (decided by C12 R12.2)", obligation=False)
 
 
+ENV_DROPPING = ("retain", "remove", "clear", "pop_first", "pop_last", "drain", "extract_if", "split_off", "filter", "take", "skip", "take_while", "skip_while", "truncate")
+
+
+def r18_8(ctx):
+    """every variable of the test case's environment (incl. the documented resets to the empty string: CDPATH="", GREP_OPTIONS="") reaches the child
+    process: between `testcase.config.environment` and Exec::env_extend the map is only copied and added to, never filtered"""
+    prog = ctx.prog
+    from .c16 import mut_calls
+    r = prog.impl_fn("SubprocessRunner", "Runner", "run")
+    o = Origins(r)
+    sites = [(bb, t) for bb, t in r.calls() if mname(t) in ("Exec::env_extend", "Exec::env", "Exec::envs")]
+    ctx.check(len(sites) >= 1, "env-site", r.where(), "the child environment is set with Exec::env_extend (%d site(s))" % len(sites), "no env_extend call in SubprocessRunner::run")
+    for bb, t in sites:
+        tree = o.operand(t["args"][1])
+        from_cfg = any(n.kind == "field" and n.a == "environment" for n in tree.walk())
+        bad = sorted({method_name(n.a) for n in tree.walk() if n.kind == "call" and method_name(n.a).split("::")[-1] in ENV_DROPPING})
+        # mutations of the local map the iterator is taken from
+        for l in range(len(r.locals)):
+            if "Map<" in r.lty(l) and "String" in r.lty(l) and not r.lty(l).startswith("&"):
+                for mb, mt in mut_calls(r, l):
+                    if mname(mt).split("::")[-1] in ENV_DROPPING:
+                        bad.append(mname(mt))
+        ctx.check(from_cfg and not bad, "env-unfiltered", r.loc(bb),
+                  "the child receives the whole testcase.config.environment (plus SHELL): copied and extended only",
+                  "the environment handed to the child is filtered (%s): variables scrut sets to the empty string on purpose (CDPATH, GREP_OPTIONS) are dropped and the "
+                  "caller's values leak into every test case" % (sorted(set(bad)) or "not derived from testcase.config.environment"))
+
+
 def run(ctx):
     ctx.run_rule("R18.1", "ownership: every directory/file creating call yields an owned TempDir (Ephemeral / live local), a path beneath one, or is leaked only under keep_temporary_directories [E-SITE]", r18_1, floor=11)
     ctx.run_rule("R18.2", "leak APIs only on the keep edge; no process::exit/abort; no panic=abort; main returns ExitCode [E-SITE]", r18_2, floor=5)
     ctx.run_rule("R18.3", "who-may-remove: no fs::remove_* in non-test code [E-SITE]", r18_3, floor=1)
     ctx.run_rule("R18.5", "the bash state file is written inside the owned per-document TempDir: the TempDir path reaches the template unmodified, in a double-quoted position (shared with C12 R12.1/R12.2) [E-FLOW]", r18_5, floor=8)
     ctx.run_rule("R18.7", "scrut's EXIT handler is armed at one place only and never dumped into the persisted state (no `trap -p` in the template) [template analyzer]", r18_7, floor=3)
+    ctx.run_rule("R18.8", "the whole test case environment reaches the child: between config.environment and Exec::env_extend the map is copied / extended only, never filtered [E-FLOW]", r18_8, floor=2)
     ctx.run_rule("R18.6", "scrut-set variables are fresh per test case only if the state dump excludes them (writer/reader agreement between build_env_vars and BASH_EXCLUDED_VARIABLES) [E-TABLE]", r18_6, floor=3)
     ctx.run_rule("R18.4", "environment table: documented variables == variables set (Cram extras on the cram_compat edge); SHELL, SCRUT_TEST=<file>:<line> per test case; applied in test/update/create [E-TABLE]", r18_4, floor=12)
